@@ -1,6 +1,8 @@
 //! Independent reference implementations (no lopdf types in here).
 pub mod codecs;
+pub mod refwriter;
 pub mod robj;
+pub mod strictreader;
 
 pub fn selftests() -> Vec<(&'static str, Result<(), String>)> {
     vec![("codecs", codecs::selftest())]
